@@ -199,6 +199,10 @@ def rule_f(R, ctx):
                 return None  # the prev walk has not stopped yet
             return bool(want[key](n))
         ok, cex, keys = truth_check(f, cls, req, max_atoms=12)
+        from ylib.formula import missing_atoms
+        gone = missing_atoms(f, cls, lambda n, key=key: want[key]({x: n.get(x, False) for x in ("NEW", "DI", "DP", "PS", "PA")}), ["NEW", "DI", "DP", "PS"])
+        if gone:
+            ok, cex = False, "the row no longer tests %s" % gone
         vals_ok = True
         if kind == "Updated" and val[0] == "agg" and len(val[2]) == 2:
             vals_ok = left_of(val[2][0]) and not left_of(val[2][1])
